@@ -147,6 +147,10 @@ func RunPair(t *testing.T, spec RunSpec, v PairVariant, stats *Stats) *RunResult
 			}
 			stats.Check(rule, uint64(len(ga.Calls))<<8|uint64(gi))
 			xa, xb := groupSig(ga), groupSig(gb)
+			// the actions taken on the group are compared as a multiset: the order in which a code works
+			// through, say, a reap batch may legitimately differ from run to run (a Go map in between)
+			sort.Strings(xa[1:])
+			sort.Strings(xb[1:])
 			if strings.Join(xa, "\n") != strings.Join(xb, "\n") {
 				// a fatal stop in the varied group legitimately cuts later groups short
 				if sa.Outcome.EndsLifetime() || sb.Outcome.EndsLifetime() {
